@@ -34,4 +34,13 @@ ScriptR3 == [s \in Streams3 |->
    IF s = "sa_101v0" THEN << P(20, 22, <<21>>) >>
    ELSE IF s = "sa_102v0" THEN << P(12, 14, <<13>>), P(14, 15, <<>>) >>
    ELSE << P(16, 18, <<17, 17>>) >>]
+PChanSame == [s \in Streams3 |-> "sa"]
+\* two source pchannels multiplexed on one downstream pchannel (source has more physical channels than the target):
+\* one handler per source pchannel, both stamping the clock of the same downstream channel
+Streams2H == {"sa_101v0", "sb_102v0"}
+PChan2H == [s \in Streams2H |-> IF s = "sa_101v0" THEN "sa" ELSE "sb"]
+CollOf2H == [s \in Streams2H |-> IF s = "sa_101v0" THEN "c1" ELSE "c2"]
+Seek2H == [s \in Streams2H |-> IF s = "sa_101v0" THEN 20 ELSE 12]
+Script2H == [s \in Streams2H |->
+   IF s = "sa_101v0" THEN << P(20, 22, <<21>>), P(22, 23, <<>>) >> ELSE << P(12, 14, <<13>>) >>]
 =============================================================================
